@@ -1,5 +1,6 @@
 """C07 — limits: theorems of Properties/C07.v (all programs) + T3 tie on exact statistics +
 the property evaluated on the real vm::run through the run-stats hook."""
+from . import c20 as _c20
 from . import core, gen, engine, engprop
 from .core import hexs
 
@@ -65,7 +66,9 @@ CFG = {
     "tiers": ("t2", "run"), "limits": ("-", "0", "1", "2", "3", "5", "10", "100", "1000000"),
     "k_base_quick": 6, "k_extra_quick": 4, "k_base_thorough": 30, "k_extra_thorough": 20,
     "extras": [limits_property],
-    "corpus": ["(?:(?(a)b))*", "(a|ab)*c\\1", "(?:a|b)*+c", "(?=(a*))\\1b", "(?:(?(a)b|c))*"],
+    "corpus": ["(?:(?(a)b))*", "(a|ab)*c\\1", "(?:a|b)*+c", "(?=(a*))\\1b", "(?:(?(a)b|c))*",
+               # negative look-arounds whose VM-compiled body still has a pending alternative when it matches
+               "(?!(?:a|ab)(?=c))\\w", "(?!(a|ab|abc)\\1)a", "(?!a+(?=c))\\w", "(?<!(?:a|b)(?=c)\\b)c", "(?!(?:a|b)*(?=c))\\w"] + _c20.family()[:60],
     "assumptions": ["the step bound in terms of limit, pattern and text is not proved (partial): only the limit/answer relation and the stack bound are theorems"],
     "rule": "patterns = corpus + context x filler products + seeded random trees over the unrestricted grammar (all features); texts over {a,b,c,e-acute,newline,-}; every boundary offset; limits {0,1,2,3,5,10,100,10^6} plus the exact threshold B and B-1 read through the stats hook; non-trivial = a limited run in which the limit fires",
 }
